@@ -30,6 +30,7 @@ class MinimizerScipyOptimize(MinimizerBase):
         self._par_bounds = None
         self._par_fixed = np.array([False] * len(parameter_names))
         self._par_constraints = []
+        self._par_err_outdated = False  # fixing / releasing a parameter after the fit changes the covariance matrix
 
         self._opt_result = None
         self._x0 = None  # Stores initial value for x0 when profiling a parameter
@@ -59,6 +60,7 @@ class MinimizerScipyOptimize(MinimizerBase):
             self._save_state_dict["parameter_bounds"] = np.array(self._par_bounds)
         self._save_state_dict["function_value"] = self._fval
         self._save_state_dict["par_fixed"] = np.array(self._par_fixed)
+        self._save_state_dict["par_err_outdated"] = self._par_err_outdated
         self._save_state_dict["opt_result"] = self._opt_result
         super(MinimizerScipyOptimize, self)._save_state()
 
@@ -74,6 +76,7 @@ class MinimizerScipyOptimize(MinimizerBase):
             self._par_bounds = np.array(self._par_bounds)
         self._fval = self._save_state_dict["function_value"]
         self._par_fixed = np.array(self._save_state_dict["par_fixed"])
+        self._par_err_outdated = self._save_state_dict["par_err_outdated"]
         self._opt_result = self._save_state_dict["opt_result"]
         super(MinimizerScipyOptimize, self)._load_state()
 
@@ -90,6 +93,11 @@ class MinimizerScipyOptimize(MinimizerBase):
 
     @property
     def parameter_errors(self):
+        if self._par_err_outdated:
+            self._par_err_outdated = False  # the previous values serve as parameter scale while the Hessian is calculated
+            _cov_mat = self.cov_mat
+            if _cov_mat is not None:
+                self._par_err = np.sqrt(np.diag(_cov_mat))
         return self._par_err.copy()
 
     @parameter_errors.setter
@@ -115,6 +123,7 @@ class MinimizerScipyOptimize(MinimizerBase):
         _par_id = self._par_names.index(parameter_name)
         self._par_fixed[_par_id] = True
         self._invalidate_cache()
+        self._par_err_outdated = self.did_fit
 
     def is_fixed(self, parameter_name):
         _par_id = self._par_names.index(parameter_name)
@@ -124,6 +133,7 @@ class MinimizerScipyOptimize(MinimizerBase):
         _par_id = self._par_names.index(parameter_name)
         self._par_fixed[_par_id] = False
         self._invalidate_cache()
+        self._par_err_outdated = self.did_fit
 
     def limit(self, parameter_name, parameter_bounds):
         assert len(parameter_bounds) == 2
@@ -220,6 +230,7 @@ class MinimizerScipyOptimize(MinimizerBase):
         # Update parameter errors.
         # This is not done lazily because parameter errors need to be persistent.
         self._par_err = np.sqrt(np.diag(self.cov_mat))
+        self._par_err_outdated = False
 
     def contour(self, parameter_name_1, parameter_name_2, sigma=1.0, **minimizer_contour_kwargs):
         if not self.did_fit:
